@@ -379,3 +379,4 @@ def run(ctx, res):
     # query arms never admit (zero-count rule; positive instance lives in the fixture / seeded patches)
     from . import c10
     c10.rule_queries_mark_only(ctx, res)
+    common.rule_request_mark_sites(ctx, res)
